@@ -212,6 +212,10 @@ CallFn(g, f, a, c) ==
       [] f = "reverse"    -> a[1]          \* as a SET; the order is in SeqOf
       [] OTHER            -> VErr("unknown function")
 
+\* a value outside the specified model (Inexact number / error marker)
+Bad(v) == v.t = "err" \/ (v.t = "n" /\ IsInx(v.v))
+AnyBad(vs) == \E i \in 1 .. Len(vs) : Bad(vs[i])
+
 Eval(e, g, c) ==
     CASE e.t = "path"   -> VNS(EvalSteps(g, e.steps, IF e.abs THEN {1} ELSE {c.n}))
       [] e.t = "filter" ->
@@ -225,14 +229,20 @@ Eval(e, g, c) ==
             LET b == Eval(e.base, g, c)
             IN IF b.t # "ns" THEN VErr("step on non-node-set") ELSE VNS(UnionOfSteps(g, e.alts, b.v))
       [] e.t = "bin"    ->
-            IF e.op = "or"  THEN (IF ToBool(Eval(e.l, g, c)) THEN VB(TRUE) ELSE VB(ToBool(Eval(e.r, g, c))))
-            ELSE IF e.op = "and" THEN (IF ToBool(Eval(e.l, g, c)) THEN VB(ToBool(Eval(e.r, g, c))) ELSE VB(FALSE))
-            ELSE IF e.op \in CmpOps THEN VB(Compare(g, e.op, Eval(e.l, g, c), Eval(e.r, g, c)))
-            ELSE VN(Arith(e.op, ToNum(g, Eval(e.l, g, c)), ToNum(g, Eval(e.r, g, c))))
-      [] e.t = "neg"    -> VN(NumNeg(ToNum(g, Eval(e.e, g, c))))
+            LET l == Eval(e.l, g, c) IN
+            IF Bad(l) THEN VErr("outside model")
+            ELSE IF e.op = "or" /\ ToBool(l) THEN VB(TRUE)
+            ELSE IF e.op = "and" /\ ~ToBool(l) THEN VB(FALSE)
+            ELSE LET r == Eval(e.r, g, c) IN
+                 IF Bad(r) THEN VErr("outside model")
+                 ELSE IF e.op \in BoolOps THEN VB(ToBool(r))
+                 ELSE IF e.op \in CmpOps THEN VB(Compare(g, e.op, l, r))
+                 ELSE VN(Arith(e.op, ToNum(g, l), ToNum(g, r)))
+      [] e.t = "neg"    -> LET v == Eval(e.e, g, c) IN IF Bad(v) THEN VErr("outside model") ELSE VN(NumNeg(ToNum(g, v)))
       [] e.t = "lit"    -> VS(e.s)
       [] e.t = "num"    -> VN(e.v)
-      [] e.t = "call"   -> CallFn(g, e.f, EvalArgs(g, e.args, c), c)
+      [] e.t = "call"   -> LET a == EvalArgs(g, e.args, c)
+                           IN IF AnyBad(a) THEN VErr("outside model") ELSE CallFn(g, e.f, a, c)
 
 \* node-set result as a set / in document order
 EvalSet(e, g, n) == Eval(e, g, Ctx(n)).v
